@@ -71,21 +71,26 @@ def block_facts(case: str, out: str):
     cancels: dict[str, list[int]] = {}
     failures: list[int] = []
     disturb: list[int] = []  # any cancellation request or task failure anywhere (group aborts reach other tasks)
+    disturb_by: list[tuple[int, str, str]] = []   # (index, the task it concerns / comes from, kind)
     for idx, e in enumerate(evs):
         if e[0] == "X":
             if e[1] == "cancel":
                 cancels.setdefault(e[2], []).append(idx)
                 disturb.append(idx)
+                disturb_by.append((idx, e[2], "cancel"))
             continue
         k = e[1]
         if k == "cancelself":
             cancels.setdefault(e[0], []).append(idx)
             disturb.append(idx)
+            disturb_by.append((idx, e[0], "cancel"))
         elif k == "end" and e[2] not in ("ok", "Cancelled"):
             failures.append(idx)
             disturb.append(idx)
+            disturb_by.append((idx, e[0], "failure"))
         elif k == "raise" or (k == "bodyend" and e[3] != "ok"):
             disturb.append(idx)  # a failing body makes TaskGroup cancel the members
+            disturb_by.append((idx, e[0], "raise"))
         b = None
         if k in ("pre", "post", "enter", "bodyend", "left"):
             b = int(e[2])
@@ -124,6 +129,13 @@ def block_facts(case: str, out: str):
         f["disturbed"] = any(i < f["left_idx"] for i in disturb)
         f["disturbed_during_exit"] = f.get("pending", False) or any(
             f.get("bodyend_idx", f["left_idx"]) < i < f["left_idx"] for i in disturb)
+        # what can legitimately put a *new* cancellation into this task while (or right before) its exit runs: a request still
+        # pending when the body ended, a request arriving during the exit, or anything another task did (a failing task / body
+        # makes a task group cancel members or its parent, a loop turn later).  NOT: this task's own raising, and not a request to
+        # this task that was already delivered before the body ended (delivered = consumed: the body could not have gone on otherwise)
+        be = f.get("bodyend_idx", f["left_idx"])
+        f["new_cancel_possible"] = f.get("pending", False) or any(
+            i < f["left_idx"] and (who != t or (kind == "cancel" and i > be)) for i, who, kind in disturb_by)
         res.append(f)
     return res
 
@@ -222,7 +234,7 @@ def monitor(case: str, out: str) -> list[str]:
             # legitimate replacement: a (new) cancellation delivered while the exit runs - requested during the exit,
             # pending at its start, or sent by a task group aborting because some task/body failed earlier (its
             # done-callback runs a loop turn later, so it cannot be ordered exactly against this block's events)
-            legit = f["left"] == "Cancelled" and (f["disturbed_during_exit"] or f["disturbed"])
+            legit = f["left"] == "Cancelled" and f["new_cancel_possible"]
             if not legit:
                 fails.add("context.body-exception-replaced")
     return sorted(fails)
